@@ -436,13 +436,13 @@ Inductive top : Type :=
 Definition t_step (t : tstate) (o : top) : res tstate :=
   match o with
   | TPush n =>
-    (* memmove(ibuf, ibuf + ibuf_pos, ibuf_cnt - ibuf_pos): the unread part moves to the front *)
+    let n' := Z.min n (IBUFSZ - ibuf_cnt t) in
     let len := ibuf_cnt t - ibuf_pos t in
-    if (len <? 0) || (ibuf_pos t <? 0) || (IBUFSZ <? ibuf_cnt t) then OobRd else
-    let n' := Z.min n (IBUFSZ - len) in
-    (* memmove(ibuf + n', ibuf, len); memcpy(ibuf, s, n'): the pushed keys are read first *)
-    if (n' <? 0) || (IBUFSZ <? n' + len) then OobWr
-    else Ok (mkT 0 (len + n') (icmd_pos t))
+    (* memmove(ibuf + pos + n', ibuf + pos, len): the unread keys move up by n' ... *)
+    if (n' <? 0) || (len <? 0) || (ibuf_pos t <? 0) || (IBUFSZ <? ibuf_pos t + len) then OobRd else
+    if IBUFSZ <? ibuf_pos t + n' + len then OobWr
+    (* ... memcpy(ibuf + pos, s, n'): the pushed keys are read first; the read part is not reclaimed *)
+    else Ok (mkT (ibuf_pos t) (ibuf_cnt t + n') (icmd_pos t))
   | TRead refill =>
     let fill :=
       if ibuf_cnt t <=? ibuf_pos t then
@@ -473,6 +473,6 @@ Fixpoint t_run (t : tstate) (ops : list top) : res tstate :=
    the model has teeth (Properties_C05: the unclipped variants do overflow) *)
 Definition t_step_noclip (t : tstate) (o : top) : res tstate :=
   match o with
-  | TPush n => let len := ibuf_cnt t - ibuf_pos t in if IBUFSZ <? n + len then OobWr else Ok (mkT 0 (len + n) (icmd_pos t))
+  | TPush n => if IBUFSZ <? ibuf_cnt t + n then OobWr else Ok (mkT (ibuf_pos t) (ibuf_cnt t + n) (icmd_pos t))
   | _ => t_step t o
   end.
